@@ -128,6 +128,36 @@ def classify_end(recs):
     return None
 
 
+def create_failure_stage(work, rep, ev):
+    """thread_pool_create() with a worker thread that cannot be started (pthread_create wrapped to fail at call K): the workers already running
+    have to be woken and joined, create returns NULL - it must RETURN (C09: every call returns).  Real threads, 10 s watchdog."""
+    binp = work + "/replay_poolcreate"
+    if not build.compile_harness(VERIF + "/harness/replay_poolcreate.c", binp, variant="plain", extra=["-Wl,--wrap=pthread_create", "-pthread"]):
+        raise RuntimeError("harness build failed")
+    n = 0
+    for W in (1, 2, 3, 4, 6, 8):
+        for K in range(1, W + 2):
+            for rep_i in range(5):
+                try:
+                    q = subprocess.run([binp, str(W), str(K)], capture_output=True, text=True, timeout=30)
+                    rc, out = q.returncode, q.stdout
+                except subprocess.TimeoutExpired:
+                    rc, out = 124, "HANG"
+                n += 1
+                if rc in (3, 124) or "HANG" in out:
+                    rep.violation("pool-create-hang", "thread_pool_create(%d workers) does not return when the start of thread %d fails (the workers already running are never all woken)" % (W, K),
+                                  data={"workers": W, "failing_thread": K})
+                    return n
+                if rc != 0:
+                    rep.violation("pool-create-crash", "thread_pool_create(%d workers) with a failing start of thread %d: exit status %d" % (W, K, rc), data={"workers": W, "failing_thread": K})
+                    return n
+                got = json.loads(out.strip().split("\n")[-1])["created"]
+                if got != (K > W):
+                    print("SPEC-DRIFT (no alarm): thread_pool_create(%d) with failing thread start %d: created = %s" % (W, K, got))
+    ev.set("pool_create_failure_runs", n)
+    return n
+
+
 def serial_stage(work, rep, ev, tier):
     """spec/PoolSerial.tla: the serial implementation of the same interface at list-pointer granularity; every call sequence TLC enumerates
     is replayed on the real threadpool_serial.c (ASan), call results compared one by one."""
@@ -493,6 +523,7 @@ def run(tier):
         ev.write()
         return 2
     ev.set("random_schedules", nrand)
+    replays += create_failure_stage(work, rep, ev)
     sn = serial_stage(work, rep, ev, tier)
     if sn is None:
         ev.write()
